@@ -17,9 +17,16 @@ TBeg == IsEv("TickBegin") /\ Consume1 /\ TickBegin(Ev.tick)
 TEndT == IsEv("TickEnd") /\ Consume1 /\ TickEnd(Ev.tick)
 TPO == IsEv("ProcsOpen") /\ Consume1 /\ ProcsOpen(Ev.p, SeqToSet(Ev.pids))
 TKill == IsEv("Kill") /\ Consume1 /\ Signal(Ev.pid, Ev.sig)
+TQuery == IsEv("StatQuery") /\ Consume1 /\ Query(Ev.avail)
+\* two accessors answer an EMPTY file with a default instead of "unavailable" (a comment in Fs.cpp says so for
+\* cgroup.stat): accepted here so that the rest of the execution is still validated; chk_tick.py reports each as a
+\* known finding, and as a violation if known_findings.txt does not list it
+EmptyDefaults == {<<"cgroup.stat", "nr_dying_descendants">>, <<"memory.oom.group", "oom_group">>}
+TQueryDefault == /\ IsEv("StatQuery") /\ Consume1 /\ Ev.avail /\ Ev.kind = "empty" /\ <<Ev.file, Ev.field>> \in EmptyDefaults
+                 /\ Query(FALSE)
 \* an execution is complete only after both ticks
 TEnd == IsEv("SEnd") /\ Consume1 /\ tno = 2 /\ Over
-TraceNext == TRst \/ TBeg \/ TEndT \/ TPO \/ TKill \/ TEnd
+TraceNext == TRst \/ TBeg \/ TEndT \/ TPO \/ TKill \/ TQuery \/ TQueryDefault \/ TEnd
 TraceSpec == TraceInit /\ [][TraceNext]_tvars
 TraceProgress == TLCSet(1, IF TLCGet(1) < l THEN l ELSE TLCGet(1))
 TraceAccepted == /\ PrintT(<<"MAXL", TLCGet(1), "OF", N>>) /\ TLCGet(1) = N + 1
